@@ -702,7 +702,11 @@ def run(tier, seed, replay=None):
             fs = node_leg_monitor(it, r)
             dist["node-leg" + (":finding" if fs else ":clean")] = dist.get("node-leg" + (":finding" if fs else ":clean"), 0) + 1
             for sig, text in fs:
-                ck.fail(sig, text, {"input": it, "impl": {k: v for k, v in r.items() if k != "tail"}})
+                still, r2 = nlrun.confirmed(binary, it, node_leg_monitor, sig, "c12")
+                if not still:
+                    ck.notes["unconfirmed_node_level_failures"] = ck.notes.get("unconfirmed_node_level_failures", 0) + 1
+                    continue
+                ck.fail(sig, text, {"input": it, "impl": {k: v for k, v in r2.items() if k != "tail"}})
     ck.distribution = {"classes": dist, "model_branches_hit": cov, "coq_case_terms": nterms}
     ck.samples = [{"input": c, "impl": {k: (v[:6] if isinstance(v, list) else v) for k, v in o.items()}}
                   for c, o in list(zip(cases, obs))[-2:]]
